@@ -25,6 +25,9 @@ import (
 
 type docFinding struct{ kind, detail string }
 
+// yamlLegDisabled counts documents whose YAML leg was not evaluated (property's string exclusion).
+var yamlLegDisabled int64
+
 // dumpPipeline is the canonical dump used to compare parsed pipelines: it
 // keeps ordered-map order, distinguishes every Go type except that numbers
 // are compared by value and a time.Time equals its RFC 3339 text; for typed
@@ -253,7 +256,7 @@ func evalDoc(doc docgen.Doc, text string, o docOpts) (fs []docFinding, harness s
 	if err != nil {
 		return nil, "rendered document unreadable by yaml.v3: " + err.Error() + "\n" + text
 	}
-	if d := docgen.Match(doc.In, back); d != "" {
+	if d := docgen.MatchInput(doc.In, back); d != "" {
 		return nil, "rendered document does not denote the abstract tree: " + d + "\n" + text
 	}
 	p, err, pan := parsePipeline(text)
@@ -278,17 +281,22 @@ func evalDoc(doc docgen.Doc, text string, o docOpts) (fs []docFinding, harness s
 	// The YAML leg is defined only when no string of the pipeline is a
 	// multi-line string beginning with whitespace, and no mapping key is "<<"
 	// (yaml.v3's emitter cannot round-trip those; property text / DESIGN §8).
-	if gj, err := docgen.FromJSON(js); err == nil {
-		gj.Walk("$", func(_ string, n *docgen.N) {
-			if n.K == docgen.KStr && !c09yamlLegOK(n.S) {
+	gate := func(_ string, n *docgen.N) {
+		if n.K == docgen.KStr && !c09yamlLegOK(n.S) {
+			o.yamlLegOK = false
+		}
+		for _, k := range n.Keys {
+			if (k == "<<" && !n.Get(k).Merge && n.Get(k).AliasOf == nil) || !c09yamlLegOK(k) {
 				o.yamlLegOK = false
 			}
-			for _, k := range n.Keys {
-				if k == "<<" || !c09yamlLegOK(k) {
-					o.yamlLegOK = false
-				}
-			}
-		})
+		}
+	}
+	if gj, err := docgen.FromJSON(js); err == nil {
+		gj.Walk("$", gate)
+	}
+	doc.In.Walk("$", gate) // the input's own strings count too (a bug that strips the offending prefix must not re-enable the leg)
+	if !o.yamlLegOK {
+		yamlLegDisabled++
 	}
 	if o.yamlLegOK {
 		if pan := report.Catch(func() { ys, yerr = yaml.Marshal(p) }); pan != "" {
@@ -472,6 +480,8 @@ func runDocs(w *report.W, label string, focus []string, bound int, presentations
 	if ex.Stats.Capped {
 		w.Inexhaustive(fmt.Sprintf("%s: execution cap %d", label, maxExec))
 	}
+	w.Count("documents_with_yaml_leg_disabled", yamlLegDisabled)
+	yamlLegDisabled = 0
 	if w.Shard == 0 {
 		w.Count(label+"_choice_sequences", ex.Stats.Executions)
 		w.P.Bounds[label] = fmt.Sprintf("focus=%v deviations<=%d executions=%d maxdepth=%d", focus, bound, ex.Stats.Executions, ex.Stats.MaxDepth)
@@ -521,12 +531,13 @@ func c03run(w *report.W) {
 		runDocs(w, "all-2dev", nil, 2, pres, o, 0)
 		runDocs(w, "presentation", []string{"present."}, 1, docgen.Presentations, o, 0)
 		runDocs(w, "anchors", []string{"present.anchors"}, 2, []string{"yaml-block", "yaml-flow"}, o, 0)
+		runDocs(w, "group-aliases", []string{"s0.kind", "s0.grp.", "s0.g.s0.cmd.key", "s0.g.s0.cmd.label"}, 1, pres, o, 0)
 	} else {
 		runDocs(w, "aliases", []string{"s0.cmd.key", "s0.cmd.label", "s0.cmd.form"}, 2, pres, o, 0)
 		runDocs(w, "all-3dev", nil, 3, pres, o, 0)
 		runDocs(w, "presentation", []string{"present."}, 2, docgen.Presentations, o, 0)
 		runDocs(w, "anchors", []string{"present.anchors"}, 3, []string{"yaml-block", "yaml-flow"}, o, 0)
-		runDocs(w, "group-aliases", []string{"s0.kind", "s0.grp.", "s0.g.s0.cmd.key", "s0.g.s0.cmd.label"}, 1, pres, o, 0)
+		runDocs(w, "group-aliases", []string{"s0.kind", "s0.grp.", "s0.g.s0.cmd.key", "s0.g.s0.cmd.label"}, 2, pres, o, 0)
 	}
 }
 
